@@ -167,6 +167,19 @@ def oracle(sc, res, rng_seed=0):
             if np.any(rows < lo - tol) or np.any(rows > hi + tol):
                 fails.append(Fail(key_for(sc, "between"), "adaptive estimate outside the range of the tapered spectra",
                                   float(np.max(np.maximum(lo - rows, rows - hi))), "within [min_k S_k, max_k S_k]"))
+    # ---- the all-pairs estimators as a PSD route: the diagonal equals the single-channel estimator called
+    # with identical keywords
+    if est in ("periodogram_csd", "multi_taper_csd"):
+        s1 = {k: v for k, v in sc.items() if k not in ("via_get_spectra", "history")}
+        s1["est"] = "periodogram" if est == "periodogram_csd" else "multi_taper_psd"
+        S.set_data(s1, x.reshape(-1, x.shape[-1]))
+        r1 = S.run_scenario(s1)
+        if r1["err"] is None:
+            o1 = np.asarray(r1["out"])
+            ok, e = close_arr(rows, o1.reshape(rows.shape).real) if o1.size == rows.size else (False, float("inf"))
+            if not ok:
+                fails.append(Fail("C04/%s/equals-psd" % est, "diagonal differs from %s called with identical keywords" % s1["est"],
+                                  {"relative_deviation": e}, "equal"))
     # ---- fewer than 3 usable tapers: adaptive=True is documented to fall back to the fixed sqrt(eigenvalue)
     # weights, so it must equal the adaptive=False estimate (to which Parseval applies)
     if est in ("multi_taper_psd", "multi_taper_csd") and sc.get("adaptive"):
@@ -325,12 +338,27 @@ def gen_all(ctx):
     rng = ctx.rng
     q = ctx.quick
     scs = corpus_scenarios("C04")
-    for _ in range(ctx.scale(50, 400)):
+    for _ in range(ctx.scale(36, 400)):
         scs.append(S.gen_scenario(rng, "periodogram", nmax=64 if q else 256, max_ch=rng.choice([1, 2, 3, 5])))
-    for _ in range(ctx.scale(14, 150)):
+    for _ in range(ctx.scale(10, 150)):
         scs.append(S.gen_scenario(rng, "multi_taper_psd", nmax=32 if q else 96, max_ch=rng.choice([1, 2, 3, 4]) if q else 5))
     for _ in range(ctx.scale(12, 100)):
         scs.append(S.gen_scenario(rng, "periodogram_csd", nmax=24 if q else 64, max_ch=4 if q else 5))
+    # multi_taper_csd as a PSD route (directly and through get_spectra)
+    for _ in range(ctx.scale(4, 40)):
+        sc = S.gen_scenario(rng, "multi_taper_csd", nmax=16 if q else 40, max_ch=2 if q else 4)
+        if len(sc["shape"]) == 2 and rng.random() < 0.5:
+            sc["via_get_spectra"] = True
+        scs.append(sc)
+    # the NFFT-vs-N parity matrix (N even / odd x NFFT in {None, N, N+1, N+2, 2N, 2N+1}) for every estimator
+    ne, no = (10, 9) if q else (rng.choice([16, 32, 64]), rng.choice([15, 31, 63]))
+    for est in ("multi_taper_csd", "periodogram_csd", "multi_taper_psd", "periodogram"):
+        mat = S.gen_parity_matrix(rng, est, ne if est.startswith("multi") else ne - 2, no if est.startswith("multi") else no - 2,
+                                  M=2 if est.endswith("_csd") else 1, per_cell=1 if q else 2)
+        for sc in mat:
+            if est.endswith("_csd") and rng.random() < 0.3:
+                sc["via_get_spectra"] = True
+        scs += mat
     # adaptive=True with 1-2 usable tapers; the BW keyword with NFFT in {None, N, > N}
     for _ in range(ctx.scale(4, 20)):
         scs.append(S.force_few_tapers(rng, S.gen_scenario(rng, "multi_taper_psd", nmax=24 if q else 64, max_ch=2 if q else 4)))
